@@ -77,7 +77,9 @@ func runFixed(c *core.Ctx, accuracy bool) {
 		have := false
 		first := true
 		viol := 0
-		var count int64
+		var count, distinct int64
+		var lastRaw uint64
+		haveRaw := false
 		t.forEachChunk(c, func(in []uint64) {
 			if viol > 20 {
 				return
@@ -94,7 +96,11 @@ func runFixed(c *core.Ctx, accuracy bool) {
 				overlap := first && i == 0 && t.full && t.lo > 0
 				if !overlap {
 					count++
+					if !haveRaw || raw != lastRaw {
+						distinct++
+					}
 				}
+				lastRaw, haveRaw = raw, true
 				det := func() map[string]any {
 					return map[string]any{"fn": name, "source_code": dyn.Val{K: st.Kind, I: int64(raw), U: raw}, "source_amplitude": sa, "result_amplitude": da}
 				}
@@ -155,7 +161,11 @@ func runFixed(c *core.Ctx, accuracy bool) {
 			first = false
 		})
 		c.Eval(count)
-		c.DistinctN(count)
+		if t.rep > 1 {
+			distinct = 0 // the same codes are already counted by the plain task
+			c.Obs("values_in_long_buffers_of_repeated_codes", count)
+		}
+		c.DistinctN(distinct)
 		kind := "list"
 		if t.full {
 			kind = fmt.Sprintf("full%d", st.Bits)
